@@ -201,6 +201,36 @@ def run(ck):
         for strat, gran in ((["random", rng.randrange(10 ** 9), 0.4], "sync"), (["pct", rng.randrange(10 ** 9), 4, 300], "sync"),
                             (["random", rng.randrange(10 ** 9), 0.4], "line")):
             tasks.append({"scen": "metrics", "params": burst, "strat": strat, "gran": gran, "facts": dict(facts)})
+    # several executors carrying the same name feed ONE labelled metric: two identical throttled / retrying stacks
+    # named alike, work queued in one while the other's worker runs, cancels of the queued work
+    for i in range(30 if quick else 400):
+        lay = rng.choice([[{"t": "throttle", "count": 1}], [{"t": "throttle", "count": 1}],
+                          [{"t": "retry", "attempts": 3, "sleep": 200}], [{"t": "map"}, {"t": "throttle", "count": 2}]])
+        twin = {"stacks": [{"base": "pool", "workers": 2, "layers": [dict(l) for l in lay]} for _ in range(2)],
+                "share_names": True,
+                "jobs": [{"st": j % 2 if j else 0, "S": rng.choice([0, 0, 100]), "K": rng.choice([None, None, 150, 250]),
+                          "C": False, "D": [rng.choice([100, 300])], "script": [[rng.choice(["V", "V", "E"]), 0], ["V", 0]],
+                          "polls": 1} for j in range(rng.choice([3, 4, 5]))],
+                "comb": [], "snaps": [175, 1500], "shutdown": [], "horizon": 2500}
+        facts = {k: False for k in D7_FACTS}
+        facts["d7"] = False
+        facts.update(describe(twin))
+        facts["share_names"] = True
+        for strat, gran in ((["random", rng.randrange(10 ** 9), 0.5], "sync"), (["random", rng.randrange(10 ** 9), 0.5], "line")):
+            tasks.append({"scen": "metrics", "params": twin, "strat": strat, "gran": gran, "facts": dict(facts)})
+    # directed two-preemption sweep (line granularity): a client cancels a job at the instant its back-off ends, while
+    # the retry thread is between picking the job and removing it from the queue
+    rq = {"stacks": [{"base": "manual", "workers": 1, "layers": [{"t": "retry", "attempts": 3, "sleep": 200}]}],
+          "jobs": [{"st": 0, "S": 0, "D": [100], "script": [["E", 0], ["V", 0]], "C": True, "K": 301, "polls": 1}],
+          "comb": [], "snaps": [50, 1500], "shutdown": [], "horizon": 2500}
+    facts = {k: False for k in D7_FACTS}
+    facts["d7"] = False
+    facts.update(describe(rq))
+    for n in range(1, 80, 2 if quick else 1):
+        for a, b in (("RetryExecutor-x2", "can1"), ("can1", "RetryExecutor-x2")):
+            tasks.append({"scen": "metrics", "params": rq,
+                          "strat": ["phases", [[a, n, 301], [b, 10000], [a, 10000]]], "gran": "line",
+                          "facts": dict(facts, directed=True)})
     pairs = ck.run_and_validate(tasks, TRACE)
     # bookkeeping for the evidence: which clause failed for which ingredients; did the facts hold up
     drift = 0
